@@ -54,7 +54,7 @@ func init() {
 		},
 		Cases: func(tier string, seed uint64) int {
 			if tier == "thorough" {
-				return 4000000
+				return 16000000
 			}
 			return 60000
 		},
